@@ -57,12 +57,16 @@ pub fn explicit(ctx: &Context, sys: &TransitionSystem, r: &mut Reach) -> Result<
     let mut depth = vec![None; nstates as usize];
     for (d, layer) in r.layers.iter().enumerate() {
         for s in layer {
+            // an initial state whose own (tied) step-0 input breaks the constraints starts no execution at all
+            if d == 0 && !r.init_ok.contains(s) {
+                continue;
+            }
             if depth[*s as usize].is_none() {
                 depth[*s as usize] = Some(d);
             }
         }
     }
-    let init = r.layers.first().cloned().unwrap_or_default();
+    let init = r.init_ok.clone();
     Ok(Explicit { nstates, ninputs, feasible, depth, init })
 }
 
@@ -459,7 +463,7 @@ impl Check for C10 {
                 }
                 other => {
                     if budget_exceeded(other) {
-                        sh.inconclusive(format!("reference solver budget exceeded ({cfg_txt})"));
+                        backend_trouble(sh, other, &cfg_txt);
                         return;
                     }
                     let cause = no_verdict_cause(&run);
